@@ -52,7 +52,7 @@ BOUNDS = (
     "at every cut through every route (seek before/after, after next(), after prev(), boundaries, "
     "exhausted, fresh; registered and manually parked) and read afterwards in all four 2-step direction "
     "patterns; (F) depth-2 (quick) / depth-3 (thorough) closures over all keys and gaps around height-3 "
-    "bases for t=3 (all-minimal 17 keys, all-maximal height-2 35 keys, ascending with and without in_order, "
+    "bases for t=3 (near-minimal height 3 reached by greedy deletion, fullest height-2 tree from in-order loading, ascending with and without in_order, "
     "seeded). SEEDED: (D) histories of <= 400 operations over <= 120 keys for t in {3,4,5,6} and <= 1500 "
     "operations over <= 700 keys for t in {8,16,127}, dict and set, int/str/dns.name.Name keys, in_order "
     "off/on/mixed per call, up to 4 mutable clones and 10 frozen trees alive, freeze/clone at random points, "
@@ -61,6 +61,11 @@ BOUNDS = (
 )
 
 _VAL = itertools.count(1)
+_LIMIT = [None]  # seconds of R.elapsed() after which the current phase stops generating
+
+
+def dl(R):
+    return R.deadline() or (_LIMIT[0] is not None and R.elapsed() > _LIMIT[0])
 
 
 # --------------------------------------------------------------------------- failures
@@ -760,7 +765,7 @@ def section_insertion_orders(R, t, n, io, kind="dict"):
     stack = [()]
     while stack:
         prefix = stack.pop()
-        if (count & 255) == 0 and R.deadline():
+        if (count & 255) == 0 and dl(R):
             R.note(f"A: deadline after {count} prefixes (t={t} n={n})")
             return
         if prefix:
@@ -996,7 +1001,7 @@ def explore_closure(R, tag, start, ops_for, probes, frz_keys, depth_limit=None, 
     while i < len(queue):
         S, depth = queue[i]
         i += 1
-        if R.deadline():
+        if dl(R):
             R.note(f"{tag}: deadline after {i} of {len(queue)} states")
             break
         ops = ops_for(S)
@@ -1205,7 +1210,7 @@ def section_height3(R, t, depth, nseeded, which=None):
     for name, io, steps in bases:
         if which is not None and not name.startswith(which):
             continue
-        if R.deadline():
+        if dl(R):
             break
         X, cx = build_base(R, "dict", t, io, steps)
         if cx.fails:
@@ -1247,7 +1252,7 @@ def seeded_history(R, cfg, idx):
     run_key = 0
     nm = 0
     for step in range(nops):
-        if (step & 15) == 0 and R.deadline():
+        if (step & 15) == 0 and dl(R):
             break
         if w.dead or w.cx.fails:
             break
@@ -1395,26 +1400,46 @@ def run(R):
     quick = R.quick
     _CHECKED["dict"].clear()
     _CHECKED["set"].clear()
+    _LIMIT[0] = None
 
     def sect(fn, *a, **k):
-        if R.deadline():
+        if dl(R):
             return
         try:
             fn(R, *a, **k)
         except Exception:
             R.note(f"harness error in {fn.__name__}{a}: {traceback.format_exc(limit=4)}")
 
+    cfgs = seeded_configs(quick)
+    state = {"round": 0, "total": 0}
+
+    def seeded_until(limit, max_rounds):
+        _LIMIT[0] = limit
+        for _ in range(max_rounds):
+            for cfg in cfgs:
+                if dl(R):
+                    return
+                try:
+                    state["total"] += seeded_history(R, cfg, state["round"])
+                except Exception:
+                    R.note(f"harness error in seeded_history {cfg['name']}: {traceback.format_exc(limit=4)}")
+            state["round"] += 1
+
+    # thorough: the exhaustive phases stop generating at 370 s, the seeded phase at 480 s
+    if not quick:
+        _LIMIT[0] = 370.0
+
     # A: insertion orders, in place
     if quick:
         plan = ((3, 7, 0), (3, 7, 1))
     else:
-        plan = ((3, 8, 0), (3, 8, 1), (4, 9, 0), (4, 8, 1), (5, 8, 0))
+        plan = ((3, 8, 0), (3, 8, 1), (4, 8, 0), (4, 8, 1))
     for t, n, io in plan:
         sect(section_insertion_orders, t, n, io)
     sect(section_insertion_orders, 3, 6 if quick else 7, 0, kind="set")
 
     # C: small closures with live cursors across every operation, and pairs of operations
-    plan = ((3, 7, 0), (3, 7, 1)) if quick else ((3, 9, 0), (3, 9, 1), (4, 9, 0), (4, 9, 1), (5, 10, 0))
+    plan = ((3, 7, 0), (3, 7, 1)) if quick else ((3, 9, 0), (3, 8, 1), (4, 9, 0), (5, 10, 0))
     for t, U, io in plan:
         sect(section_closure, t, U, io, "dict", with_cursors=True)
     sect(section_closure, 3, 6 if quick else 8, 0, "set", with_cursors=True)
@@ -1422,11 +1447,17 @@ def run(R):
     for t, U, io in plan:
         sect(section_closure, t, U, io, "dict", pairs=True)
 
+    if not quick:
+        # a first slice of seeded histories, so that they run whatever the exhaustive
+        # phases cost on this machine
+        seeded_until(min(R.elapsed() + 70.0, 370.0), 1)
+        _LIMIT[0] = 370.0
+
     # B: big closures
     if quick:
         plan = ((3, 10, 0), (3, 9, 1), (4, 10, 0), (5, 10, 0))
     else:
-        plan = ((3, 13, 0), (3, 12, 1), (4, 12, 0), (4, 12, 1), (5, 12, 0), (5, 11, 1), (6, 12, 0))
+        plan = ((3, 12, 0), (3, 11, 1), (4, 12, 0), (4, 11, 1), (5, 12, 0), (6, 12, 0))
     for t, U, io in plan:
         sect(section_closure, t, U, io, "dict")
     sect(section_closure, 3, 8 if quick else 10, 1, "set")
@@ -1437,23 +1468,13 @@ def run(R):
             sect(section_height3, 3, 2, 1, which=which)
     else:
         sect(section_height3, 3, 2, 6)
-        sect(section_height3, 3, 3, 0, which="minimal3")
         sect(section_height3, 4, 2, 3)
+        sect(section_height3, 3, 3, 0, which="minimal3")
 
     # D: seeded histories
-    cfgs = seeded_configs(quick)
-    rounds = 1 if quick else 10 ** 6
-    soft = 470.0
-    total = 0
-    for rnd in range(rounds):
-        for cfg in cfgs:
-            if R.deadline() or (not quick and R.elapsed() > soft):
-                break
-            try:
-                total += seeded_history(R, cfg, rnd)
-            except Exception:
-                R.note(f"harness error in seeded_history {cfg['name']}: {traceback.format_exc(limit=4)}")
-        else:
-            continue
-        break
-    R.note(f"D: {total} seeded steps")
+    if quick:
+        seeded_until(None, 1)
+    else:
+        seeded_until(480.0, 10 ** 6)
+    _LIMIT[0] = None
+    R.note(f"D: {state['total']} seeded steps in {state['round']} rounds")
